@@ -838,6 +838,19 @@ func (c *checker) relocation() {
 		{"relative-from-parent-dir", base, root, filepath.Join("base", "main.tsh")},
 		{"relative-with-dotdot-from-subdir", base, filepath.Join(base, "sub"), filepath.Join("..", "main.tsh")},
 		{"relative-dot-slash", base, base, "./main.tsh"},
+		// the SAME absolute path, the process standing somewhere else: nothing about the working directory
+		// (not even entries named like the import strings) may reach the result
+		{"absolute-path-cwd-empty-dir", base, filepath.Join(root, "cwd-empty"), filepath.Join(base, "main.tsh")},
+		{"absolute-path-cwd-with-decoys", base, filepath.Join(root, "cwd-decoys"), filepath.Join(base, "main.tsh")},
+	}
+	os.MkdirAll(filepath.Join(root, "cwd-empty"), 0o755)
+	for n, content := range map[string]string{
+		"strings/keep": "a directory named like a standard library import\n", "os/keep": "x\n", "strings.tsh": "func Repeat(s string, n int) string {\n\treturn \"decoy\"\n}\n",
+		"sub/util.tsh": "func Mark() string {\n\treturn \"decoy\"\n}\nfunc Twice(n int) int {\n\treturn -1\n}\n", "sub/deep/v.tsh": "func V() string {\n\treturn \"decoy\"\n}\n", "deep/v.tsh": "func V() string {\n\treturn \"decoy\"\n}\n", "main.tsh": "print(\"decoy\")\n",
+	} {
+		p := filepath.Join(root, "cwd-decoys", n)
+		os.MkdirAll(filepath.Dir(p), 0o755)
+		os.WriteFile(p, []byte(content), 0o644)
 	}
 	if err := writeTree(base, RelocTree); err != nil {
 		c.harness("cannot write tree: %v", err)
